@@ -361,6 +361,7 @@ func (w *World) prelude(usedLits map[string]bool) string {
 	b.WriteString("(assert (forall ((s Str) (i Int) (j Int)) (! (=> (and (<= 0 i) (<= i j) (<= j (slen s))) (= (slen (substr s i j)) (- j i))) :pattern ((substr s i j)))))\n")
 	b.WriteString("(assert (forall ((s Str) (i Int) (j Int) (k Int)) (! (=> (and (<= 0 i) (<= i j) (<= j (slen s)) (<= 0 k) (< k (- j i))) (= (sat (substr s i j) k) (sat s (+ i k)))) :pattern ((sat (substr s i j) k)))))\n")
 	b.WriteString("(assert (forall ((s Str)) (! (= (substr s 0 (slen s)) s) :pattern ((substr s 0 (slen s))))))\n")
+	b.WriteString("(assert (forall ((s Str) (i Int) (j Int) (a Int) (b Int)) (! (=> (and (<= 0 i) (<= i j) (<= j (slen s)) (<= 0 a) (<= a b) (<= b (- j i))) (= (substr (substr s i j) a b) (substr s (+ i a) (+ i b)))) :pattern ((substr (substr s i j) a b)))))\n")
 	b.WriteString("(assert (forall ((a Str) (b Str)) (! (= (slen (sconcat a b)) (+ (slen a) (slen b))) :pattern ((sconcat a b)))))\n")
 	b.WriteString("(assert (forall ((a Str) (b Str) (k Int)) (! (= (sat (sconcat a b) k) (ite (< k (slen a)) (sat a k) (sat b (- k (slen a))))) :pattern ((sat (sconcat a b) k)))))\n")
 	b.WriteString("(assert (forall ((a Str)) (! (= (sconcat a str_empty) a) :pattern ((sconcat a str_empty)))))\n")
